@@ -194,6 +194,7 @@ struct PointResult {
 
 /// Run the target with cancellation after `k` polls, then the post-mortem.
 async fn run_point<B: Backend>(b: &B, prog: &Arc<Program>, seed: u64, target: &Target, k: usize, shared: Option<&Arc<crate::reckv::Shared>>, prerepair_target: bool) -> PointResult {
+    let prog_ref: &Program = prog;
     let mut viol: Vec<(String, Json)> = Vec::new();
     let mut inconclusive = None;
     let Built { engine, ctx, mut or, ins, xs, .. } = build(b, prog, seed).await;
@@ -213,7 +214,7 @@ async fn run_point<B: Backend>(b: &B, prog: &Arc<Program>, seed: u64, target: &T
             if prerepair_target {
                 // counterfactual run (classifier of C01-F1)
                 hooks::set_yield(YieldPolicy::Off, 0);
-                prerepair_tfc(&t, &all).await;
+                prerepair_tfc(&t, &crate::eng::topo_order(prog_ref, &all)).await;
                 hooks::set_yield(YieldPolicy::AllPre, seed ^ k as u64);
             }
             let (res, p) = cancel_after(starved(query_node(&t, *root), true), k).await;
@@ -359,7 +360,7 @@ async fn run_point<B: Backend>(b: &B, prog: &Arc<Program>, seed: u64, target: &T
         let (exp, _) = or.expect(&queryable);
         {
             let Some(t) = step!("tracked", engine.clone().tracked()) else { break 'pm };
-            if step!("prerepair", prerepair_tfc(&t, &all)).is_none() {
+            if step!("prerepair", prerepair_tfc(&t, &crate::eng::topo_order(prog_ref, &all))).is_none() {
                 break 'pm;
             }
             for n in &queryable {
@@ -385,7 +386,7 @@ async fn run_point<B: Backend>(b: &B, prog: &Arc<Program>, seed: u64, target: &T
             or.refr.inputs.insert(*i, nv);
             let (exp, _) = or.expect(&queryable);
             let Some(t) = step!("tracked", engine.clone().tracked()) else { break 'pm };
-            if step!("prerepair", prerepair_tfc(&t, &all)).is_none() {
+            if step!("prerepair", prerepair_tfc(&t, &crate::eng::topo_order(prog_ref, &all))).is_none() {
                 break 'pm;
             }
             for n in &queryable {
@@ -440,7 +441,7 @@ async fn run_point<B: Backend>(b: &B, prog: &Arc<Program>, seed: u64, target: &T
                 if let Ok(e2) = open_engine(b, &ctx2, YieldFrequency::Never).await {
                     let (exp, _) = or.expect(&queryable);
                     if let Ok(t) = bounded(e2.clone().tracked(), 20).await {
-                        let _ = bounded(prerepair_tfc(&t, &all), 20).await;
+                        let _ = bounded(prerepair_tfc(&t, &crate::eng::topo_order(prog_ref, &all)), 20).await;
                         for n in &queryable {
                             match bounded(query_node(&t, *n), 20).await {
                                 Ok(v) if v != exp[n] => viol.push(("wrong-value-after-reopen".into(), Json::obj().set("node", format!("{n:?}")).set("got", v).set("expected", exp[n]))),
@@ -482,6 +483,7 @@ async fn run_panic<B: Backend>(b: &B, prog0: &Arc<Program>, seed: u64, victim: N
     let mut p = (**prog0).clone();
     p.poison = Some((victim, value));
     let prog = Arc::new(p);
+    let prog_ref: &Program = &prog;
     let all: Vec<NodeId> = prog.nodes.keys().copied().collect();
     let dependants: Vec<NodeId> = all.iter().copied().filter(|n| closure(&prog, &[*n]).contains(&victim)).collect();
     let mark = sup::panic_mark();
@@ -542,7 +544,7 @@ async fn run_panic<B: Backend>(b: &B, prog0: &Arc<Program>, seed: u64, victim: N
         let t = engine.clone().tracked().await;
         // (no panicking query has run on this state yet; C01-F1 is masked by
         // repairing the firewalls below the non-dependants at user level)
-        let _ = bounded(prerepair_tfc(&t, &others), 20).await;
+        let _ = bounded(prerepair_tfc(&t, &crate::eng::topo_order(prog_ref, &others)), 20).await;
         for n in &others {
             match bounded(AssertUnwindSafe(query_node(&t, *n)).catch_unwind().map(|r| r.unwrap_or(i64::MIN)), 20).await {
                 Ok(v) if v != exp[n] => viol.push(("wrong-value-after-panic".into(), Json::obj().set("node", format!("{n:?}")).set("got", v).set("expected", exp[n]))),
@@ -574,7 +576,7 @@ async fn run_panic<B: Backend>(b: &B, prog0: &Arc<Program>, seed: u64, victim: N
                 continue;
             }
             let t = engine.clone().tracked().await;
-            let _ = bounded(AssertUnwindSafe(prerepair_tfc(&t, &all)).catch_unwind(), 20).await;
+            let _ = bounded(AssertUnwindSafe(prerepair_tfc(&t, &crate::eng::topo_order(prog_ref, &all))).catch_unwind(), 20).await;
             for n in &all {
                 match bounded(AssertUnwindSafe(query_node(&t, *n)).catch_unwind(), 20).await {
                     Ok(Ok(v)) if v != exp[n] => viol.push(("wrong-value-after-panic-and-edit".into(), Json::obj().set("node", format!("{n:?}")).set("got", v).set("expected", exp[n]))),
